@@ -452,4 +452,15 @@ theorem gen_wrappers_reduce_partial {F : Type} (X : Gen.FOpsX F) (p xs : List F)
           Gen.Polynom.fill_zero_roots_ok X xs (List.replicate (xs.length + 1) (X.ofNat 0)))) :=
   ⟨C20G.gen_syn_div_wrapper X p a b, C20G.gen_poly_from_roots_wrapper X xs⟩
 
+/-- ★ `fill_zero_roots` (regenerated: prologue, outer loop over the roots, inner loop) IS the model's `fillZeroRoots`,
+    for every output slice a `usize` can index, whatever it held before: the same vector when the regenerated no-panic
+    condition holds, a panic of the model when it fails (never `hang`) -/
+theorem gen_fill_zero_roots_eq_model {α : Type} (O : Model.Poly.Ops α) (xs result : List α)
+    (hr : result.length < 18446744073709551616) :
+    (Gen.Polynom.fill_zero_roots_ok O.toX xs result = true →
+      Model.Poly.fillZeroRoots O xs result = .ok (Gen.Polynom.fill_zero_roots O.toX xs result)) ∧
+    (Gen.Polynom.fill_zero_roots_ok O.toX xs result = false →
+      ∃ msg, Model.Poly.fillZeroRoots O xs result = .panic msg) :=
+  C20G.gen_fill_zero_roots_eq O xs result hr
+
 end WinterProofs.C20
